@@ -15,10 +15,10 @@ Inductive trigger :=
   | TrClimbingLink        (* K3: a relative link target that lexically climbs above the root *)
   | TrDanglingParent      (* K4: a parent component of the name is a dangling symlink *)
   | TrRelativeName        (* D20: the operation names its path relatively *)
-  | TrHiddenViaLink
+  | TrHiddenViaLink       (* D9: a name that is not lexically hidden resolves (through a symlink or a physical ..) into a hidden path *)
   | TrHopLimit            (* K8: the kernel refuses the caller's name with ELOOP (more than 40 symlink hops), BackupFS resolves it *)
-  | TrForceNewParent      (* D22: ForceBackup of a path below a directory that was created in the transaction *)
-  | TrRemovesRoot.        (* K6: Remove/RemoveAll/Rename of the root directory of the base view itself *)      (* D9: a name that is not lexically hidden resolves (through a symlink or a physical ..) into a hidden path *)
+  | TrForceNewParent      (* D22 (repaired: no finding uses it any more): ForceBackup of a path below a directory that was created in the transaction *)
+  | TrRemovesRoot.        (* K6: Remove/RemoveAll/Rename of the root directory of the base view itself *)
 
 (** evaluate a read-only monadic query on a world, discarding effects *)
 Definition query {A} (m : M A) (w : world) : option A :=
